@@ -10,7 +10,13 @@ input / encapsulated / output decisions) serialised to DMN XML, every invocable 
 several input contexts; compared with impl_invoke / denote instantiated with the tiny evaluator `teval`.
 The literal fragment has numbers as decimal128 data (small, negative, around 10^17 where products begin to be rounded, literals
 of more than 34 digits), strings (+ concatenates, every other mix is null) and knowledge models with repeated formal parameter
-names (the last argument stays bound); numbers are compared by value, at every size."""
+names (the last argument stays bound); numbers are compared by value, at every size.
+Invocation shapes: knowledge models AND decision services are invoked by FEEL calls (one argument per parameter, missing trailing
+arguments, one argument too many, named arguments with every / not every parameter named) and by boxed invocations with every subset
+of the parameters bound (all, all but one, none, some, a binding that names no parameter), from decisions that themselves require
+the inputs / decisions the parameters are named after (a parameter without a binding is null inside a service and left to the dynamic
+scope inside a knowledge model - EInvoke / VSvc / VBkm of the tiny evaluator say exactly that; the named call is translated into the
+model's positional call or ENull by `desugar_named`, the Coq expression language has no constructor for it)."""
 import decimal
 import json
 import os
@@ -47,7 +53,18 @@ def num_of(name):
 
 # ------------------------------------------------------------------ expressions
 # ('null',) ('num', z) ('str', text) ('var', n) ('add', a, b) ('mul', a, b) ('call', f, (args)) ('invoke', f, ((p, e), ..)) ('ctx', ((k, e), ..), res|None) ('rel', (cols), ((cells..), ..))
+# ('calln', f, ((p, e), ..), (formal parameters of f))  the FEEL call with NAMED arguments f(p: e, ..).  The Coq expression language has no
+#   constructor for it: the check translates it (`desugar_named`) into the model's positional call when every formal parameter is named
+#   (arguments in the order of the formal parameters, other names dropped) and into ENull when a formal parameter is not named -
+#   eval_function_named of feel-evaluator/src/builders.rs ("invalid number of arguments"); the value is then computed by the model.
 BOXED = ('invoke', 'ctx', 'rel')
+
+
+def desugar_named(e):
+    given = dict(e[2])
+    if all(p in given for p in e[3]):
+        return ('call', e[1], tuple(given[p] for p in e[3]))
+    return ('null',)
 
 
 def text(e, fg=()):
@@ -67,6 +84,8 @@ def text(e, fg=()):
         return '(%s %s %s)' % (text(e[1], fg), '+' if k == 'add' else '*', text(e[2], fg))
     if k == 'call':
         return '%s(%s)' % (nm(e[1]), ', '.join(text(a, fg) for a in e[2]))
+    if k == 'calln':
+        return '%s(%s)' % (nm(e[1]), ', '.join('%s: %s' % (nm(p), text(a, fg)) for p, a in e[2]))
     raise ValueError('boxed expression inside a literal: %r' % (e,))
 
 
@@ -102,6 +121,8 @@ def coq_e(e):
         return '(%s %s %s)' % ('EAdd' if k == 'add' else 'EMul', coq_e(e[1]), coq_e(e[2]))
     if k == 'call':
         return '(ECall %d [%s])' % (e[1], '; '.join(coq_e(a) for a in e[2]))
+    if k == 'calln':
+        return coq_e(desugar_named(e))
     if k == 'invoke':
         return '(EInvoke %d [%s])' % (e[1], '; '.join('(%d, %s)' % (p, coq_e(x)) for p, x in e[2]))
     if k == 'ctx':
@@ -236,42 +257,98 @@ def gen_strexp(rng, names, depth):
     return ('str', rng.choice(STRS))
 
 
+def gen_call(rng, f, ps, arg):
+    """a FEEL call of f with formal parameters ps; arg() makes an argument.  Mostly one argument per parameter; also fewer arguments
+    (missing trailing arguments: no call, null), one argument too many (ignored), and the call with NAMED arguments: every parameter
+    named, a parameter not named (null), a name that is no parameter (ignored)"""
+    r = rng.random()
+    ps = list(ps)
+    if r < 0.64 or not ps:
+        n = len(ps)
+        if ps and 0.5 <= r < 0.64:
+            n = rng.choice([len(ps) - 1, len(ps) - 1, 0, len(ps) + 1])
+        return ('call', f, tuple(arg() for _ in range(n)))
+    uniq = sorted(set(ps))
+    q = rng.random()
+    if q < 0.5:
+        named = list(uniq)
+    elif q < 0.8:
+        named = list(uniq)
+        named.remove(rng.choice(named))                     # a formal parameter is not named
+    else:
+        named = rng.sample(uniq, rng.randint(1, len(uniq)))
+    if rng.random() < 0.25 or not named:
+        named.append(rng.choice([x for x in (1003, 2005, 3002) if x not in named]))      # a name that is no parameter of f
+    rng.shuffle(named)
+    return ('calln', f, tuple((p, arg()) for p in named), tuple(ps))
+
+
 def gen_arith(rng, names, calls, depth, B):
-    """an expression of the literal fragment over names; calls = [(fname id, arity)]"""
+    """an expression of the literal fragment over names; calls = [(function name id, [formal parameters])]"""
     r = rng.random()
     if depth <= 0 or r < 0.25:
         if names and rng.random() < 0.75:
             return ('var', rng.choice(names))
         return gen_lit(rng)
     if calls and r < 0.55:
-        f, ar = rng.choice(calls)
-        return ('call', f, tuple(gen_arith(rng, names, calls, depth - 1, B) for _ in range(ar)))
+        f, ps = rng.choice(calls)
+        return gen_call(rng, f, ps, lambda: gen_arith(rng, names, calls, depth - 1, B))
     if 0.55 <= r < 0.63:
         return ('add', gen_strexp(rng, names, 1), gen_strexp(rng, names, 1))
     return (rng.choice(['add', 'add', 'mul']), gen_arith(rng, names, calls, depth - 1, B), gen_arith(rng, names, calls, depth - 1, B))
 
 
-def gen_logic(rng, names, calls, bkms, B, depth=2, allow_boxed=True):
-    """a boxed expression: literal, context, invocation or relation (boxed kinds nest in boxed positions)"""
+def gen_bindings(rng, ps, names, arg):
+    """the bindings of a boxed invocation of a function with formal parameters ps: every subset is generated - all parameters (in any
+    order; a repeated parameter name is bound twice), all but one, none, some - and sometimes a binding for a name that is no
+    parameter.  A parameter without a binding must be null inside a decision service and is left to the dynamic scope inside a
+    knowledge model, whatever the invoking decision has under that name."""
+    ps = list(ps)
+    r = rng.random()
+    if r < 0.4 or not ps:
+        bound = list(ps)
+    else:
+        uniq = sorted(set(ps))
+        if r < 0.7:
+            # prefer to leave out a parameter whose name the invoker has in its own context
+            seen = [x for x in uniq if x in names]
+            uniq.remove(rng.choice(seen if seen and rng.random() < 0.7 else uniq))
+            bound = uniq
+        elif r < 0.85:
+            bound = []
+        else:
+            bound = rng.sample(uniq, rng.randint(0, len(uniq)))
+    if rng.random() < 0.15:
+        bound.append(rng.choice([1003, 2006, 3002]))
+    rng.shuffle(bound)
+    return tuple((p, arg()) for p in bound)
+
+
+def gen_logic(rng, names, calls, B, depth=2, allow_boxed=True):
+    """a boxed expression: literal, context, invocation or relation (boxed kinds nest in boxed positions); the functions of `calls`
+    (knowledge models AND decision services) are invoked by FEEL calls and by boxed invocations"""
     r = rng.random()
     if not allow_boxed or depth <= 0 or r < 0.4:
         return gen_arith(rng, names, calls, 2, B)
-    if r < 0.6 and bkms:
-        f = rng.choice(bkms)
-        ps = list(B[f]['params'])
-        rng.shuffle(ps)
-        return ('invoke', f, tuple((p, gen_logic(rng, names, calls, bkms, B, depth - 1, rng.random() < 0.3)) for p in ps))
+    if r < 0.6 and calls:
+        f, ps = rng.choice(calls)
+        return ('invoke', f, gen_bindings(rng, ps, names, lambda: gen_logic(rng, names, calls, B, depth - 1, rng.random() < 0.3)))
     if r < 0.9:
         n = rng.randint(1, 3)
         keys = rng.sample(range(2001, 2007), n)
         es, vis = [], list(names)
         for kk in keys:
-            es.append((kk, gen_logic(rng, vis, calls, bkms, B, depth - 1, rng.random() < 0.4)))
+            es.append((kk, gen_logic(rng, vis, calls, B, depth - 1, rng.random() < 0.4)))
             vis = vis + [kk]
         res = gen_arith(rng, vis, calls, 1, B) if rng.random() < 0.4 else None
         return ('ctx', tuple(es), res)
     cols = tuple(rng.sample(range(2001, 2005), 2))
     return ('rel', cols, tuple(tuple(gen_arith(rng, names, calls, 1, B) for _ in cols) for _ in range(rng.randint(1, 2))))
+
+
+def fn_params(B, f):
+    """formal parameters of the function value a required knowledge model / decision service is bound to"""
+    return list(B[f]['params']) if B[f]['kind'] == 'bkm' else svc_params(B, B[f])
 
 
 def gen_graph(rng, size, allow_bkm_svc=True):
@@ -298,11 +375,16 @@ def gen_graph(rng, size, allow_bkm_svc=True):
             if allow_bkm_svc and svcs and rng.random() < 0.35:
                 rk.append(rng.choice(svcs))
             params = [1001, 1002][:rng.randint(1, 2)]
-            if rng.random() < 0.18:
+            q = rng.random()
+            if q < 0.18:
                 # a repeated formal parameter name: the arguments are bound one after the other, the last one stays
                 params = rng.choice([[1001, 1001], [1001, 1002, 1001], [1002, 1001, 1001], [1001, 1001, 1002]])
-            calls = [(b, len(B[b]['params'])) for b in rk if B[b]['kind'] == 'bkm'] + [(s, len(svc_params(B, B[s]))) for s in rk if B[s]['kind'] == 'svc']
-            body = gen_logic(rng, params, calls, [b for b in rk if B[b]['kind'] == 'bkm'], B, depth=1)
+            elif q < 0.5:
+                # a formal parameter named like an input data: bound, it hides the invoker's entry of that name; without a binding
+                # (boxed invocation) the body sees whatever the invoking scope has under the name
+                params = rng.choice([[rng.choice(inputs)], [rng.choice(inputs), 1002], [1001, rng.choice(inputs)]])
+            calls = [(b, fn_params(B, b)) for b in rk]
+            body = gen_logic(rng, params, calls, B, depth=1)
             new('bkm', params=params, body=body, rk=rk, callable=kclosure(B, rk))
         elif r < 0.32 and decs:
             outs = rng.sample(decs, min(len(decs), rng.choice([1, 1, 1, 2])))
@@ -329,7 +411,18 @@ def gen_graph(rng, size, allow_bkm_svc=True):
             rk = rng.sample(bkms, min(len(bkms), rng.choice([0, 0, 1, 2])))
             if svcs and rng.random() < 0.3:
                 rk.append(rng.choice(svcs))
-            calls = [(b, len(B[b]['params'])) for b in rk if B[b]['kind'] == 'bkm'] + [(s, len(svc_params(B, B[s]))) for s in rk if B[s]['kind'] == 'svc']
+            if rk and rng.random() < 0.6:
+                # the invoker also requires, itself, what its functions take as parameters (the input data and input decisions of a
+                # required service, an input a knowledge model names a parameter after): its context then has entries named like the
+                # parameters, with their own values - which an invocation that does not bind such a parameter must not pick up
+                for f in rk:
+                    for x in fn_params(B, f):
+                        if x < 1000 and rng.random() < 0.7:
+                            if B[x]['kind'] == 'input' and x not in ri:
+                                ri.append(x)
+                            elif B[x]['kind'] == 'dec' and x not in rd:
+                                rd.append(x)
+            calls = [(f, fn_params(B, f)) for f in rk]
             names = ri + rd
             fg = []
             if rng.random() < 0.25:
@@ -337,7 +430,7 @@ def gen_graph(rng, size, allow_bkm_svc=True):
                 foreign = [x for x in inputs + decs if x not in names] + [3001, 3002]
                 fg = [rng.choice(foreign)]
                 names = names + fg
-            logic = gen_logic(rng, names, calls, [b for b in rk if B[b]['kind'] == 'bkm'], B)
+            logic = gen_logic(rng, names, calls, B)
             new('dec', logic=logic, rk=rk, rd=rd, ri=ri, callable=kclosure(B, rk), foreign=fg)
     return G
 
@@ -388,7 +481,139 @@ def witness_graphs():
               dict(kind='dec', id=2, rk=[], rd=[], ri=[1], callable=[], logic=('add', ('var', 1), ('var', 4))),   # mentions 4 without requiring it
               dict(kind='svc', id=3, ins=[1], indecs=[4], encs=[], outs=[2]),
               dict(kind='dec', id=4, rk=[3], rd=[], ri=[1], callable=[3], logic=('call', 3, (('var', 1), ('num', 5))))])
+    # a boxed invocation that does not bind every parameter of a decision service: the unbound input data (n1) / input decision (n6)
+    # is null inside the service although the invoking decision requires n1 / n6 itself and so has them in its own context; the same
+    # with a knowledge model whose parameter is named like an input (unbound: the body sees the invoker's n1 - dynamic scope);
+    # FEEL calls with a missing trailing argument and named calls with a missing name are null as a whole
+    pair = ('ctx', ((2001, ('var', 1)), (2002, ('var', 2))), None)
+    W.append([dict(kind='input', id=1), dict(kind='input', id=2),
+              dict(kind='dec', id=3, rk=[], rd=[], ri=[1, 2], callable=[], logic=pair),
+              dict(kind='svc', id=4, ins=[1, 2], indecs=[], encs=[], outs=[3]),
+              dict(kind='dec', id=5, rk=[4], rd=[], ri=[1, 2], callable=[4], logic=('invoke', 4, ((2, ('num', 10)),))),                       # {c1: null, c2: 10}
+              dict(kind='dec', id=6, rk=[], rd=[], ri=[1], callable=[], logic=('add', ('var', 1), ('num', 1))),
+              dict(kind='dec', id=7, rk=[], rd=[6], ri=[2], callable=[], logic=('ctx', ((2001, ('var', 6)), (2002, ('var', 2))), None)),
+              dict(kind='svc', id=8, ins=[2], indecs=[6], encs=[], outs=[7]),
+              dict(kind='dec', id=9, rk=[8], rd=[6], ri=[2], callable=[8], logic=('invoke', 8, ())),                                            # {c1: null, c2: null}
+              dict(kind='dec', id=10, rk=[8], rd=[6], ri=[2], callable=[8],
+                   logic=('ctx', ((2003, ('invoke', 8, ((2, ('var', 2)),))), (2004, ('invoke', 8, ((6, ('num', 7)), (2, ('num', 8))))),
+                                  (2005, ('call', 8, (('var', 2),))), (2006, ('calln', 8, ((6, ('num', 7)),), (2, 6)))), None)),
+              dict(kind='bkm', id=11, params=[1, 1002], body=('ctx', ((2001, ('var', 1)), (2002, ('var', 1002))), None), rk=[], callable=[]),
+              dict(kind='dec', id=12, rk=[11], rd=[], ri=[1], callable=[],
+                   logic=('ctx', ((2003, ('invoke', 11, ((1002, ('num', 5)),))), (2004, ('invoke', 11, ((1, ('num', 7)), (1002, ('num', 5))))),
+                                  (2005, ('call', 11, (('num', 7),))), (2006, ('calln', 11, ((1002, ('num', 5)), (1, ('num', 7))), (1, 1002)))), None))])
     return W
+
+
+def gen_invocation_graph(rng, size, cap):
+    """a generated graph extended with invoking decisions: for one or two of its functions (decision services first, knowledge models)
+    decisions (as many as fit below `cap` nodes) drawn from: one per subset class of the parameters - all bound, all but one (each
+    choice), none - as a boxed invocation, a FEEL call with a missing trailing argument, a named call with a missing name; the invoking decision mostly requires the inputs /
+    decisions the parameters are named after, so its own context has (other) values under the names of the unbound parameters"""
+    for attempt in range(50):
+        G = gen_graph(rng, size + attempt // 10)
+        B = by_id(G)
+        fns = [n['id'] for n in G if n['kind'] in ('svc', 'bkm') and fn_params(B, n['id'])]
+        if any(B[f]['kind'] == 'svc' for f in fns):
+            break
+    first = 'svc' if rng.random() < 0.7 else 'bkm'           # mostly a decision service; else a knowledge model, one with a parameter named like an input if there is one
+    if first == 'bkm' and not any(B[f]['kind'] == 'bkm' and any(x < 1000 for x in fn_params(B, f)) for f in fns):
+        inputs = [n['id'] for n in G if n['kind'] == 'input']
+        params = rng.choice([[rng.choice(inputs)], [rng.choice(inputs), 1002], [1001, rng.choice(inputs)], inputs[:2]])
+        rk = rng.sample(fns, min(len(fns), rng.choice([0, 0, 1])))
+        n = dict(kind='bkm', id=len(G) + 1, params=params, body=gen_logic(rng, params, [(f, fn_params(B, f)) for f in rk], B, depth=1), rk=rk, callable=kclosure(B, rk))
+        G.append(n)
+        B[n['id']] = n
+        fns.append(n['id'])
+    fns.sort(key=lambda f: (B[f]['kind'] != first, all(x >= 1000 for x in fn_params(B, f)), rng.random()))
+    # (the graph stays below `cap` nodes: the fuel of `denote` is the number of nodes + 1 and evaluating it costs 2^fuel)
+    for f in fns[:1]:
+        ps = fn_params(B, f)
+        uniq = sorted(set(ps))
+        shapes = [('invoke', list(ps))] + [('invoke', [x for x in uniq if x != p]) for p in uniq] + [('invoke', [])]
+        if len(uniq) > 2:
+            shapes.append(('invoke', rng.sample(uniq, len(uniq) - 2)))
+        drop = rng.choice(uniq)
+        shapes += [('call', len(ps) - 1), ('calln', [x for x in uniq if x != drop])]
+        rng.shuffle(shapes)
+        for kind, arg in shapes:
+            if len(G) >= cap:
+                break
+            ri, rd = [], []
+            for x in uniq:
+                if x < 1000 and rng.random() < 0.85:
+                    (ri if B[x]['kind'] == 'input' else rd).append(x)
+            others = [n['id'] for n in G if n['kind'] == 'input' and n['id'] not in ri]
+            if others and rng.random() < 0.4:
+                ri.append(rng.choice(others))
+            names = ri + rd
+            calls = [(f, ps)]
+            val = lambda: gen_arith(rng, names, [], 1, B) if rng.random() < 0.6 else gen_lit(rng)
+            if kind == 'invoke':
+                bound = list(arg)
+                rng.shuffle(bound)
+                e = ('invoke', f, tuple((p, val()) for p in bound))
+            elif kind == 'call':
+                e = ('call', f, tuple(val() for _ in range(arg)))
+            else:
+                e = ('calln', f, tuple((p, val()) for p in arg) or ((1003, val()),), tuple(ps))
+            q = rng.random()
+            if q < 0.25:
+                e = ('ctx', ((2001, e), (2002, gen_arith(rng, names + [2001], calls, 1, B))), None)      # the invocation as a context entry
+            elif q < 0.35 and kind != 'invoke':
+                e = ('add', e, gen_lit(rng))
+            n = dict(kind='dec', id=len(G) + 1, logic=e, rk=[f], rd=rd, ri=ri, callable=kclosure(B, [f]), foreign=[])
+            G.append(n)
+            B[n['id']] = n
+    return G
+
+
+def sub_exprs(e):
+    yield e
+    k = e[0]
+    if k in ('add', 'mul'):
+        kids = [e[1], e[2]]
+    elif k == 'call':
+        kids = list(e[2])
+    elif k in ('calln', 'invoke'):
+        kids = [x for _, x in e[2]]
+    elif k == 'ctx':
+        kids = [x for _, x in e[1]] + ([e[2]] if e[2] is not None else [])
+    elif k == 'rel':
+        kids = [x for row in e[2] for x in row]
+    else:
+        kids = []
+    for x in kids:
+        for y in sub_exprs(x):
+            yield y
+
+
+def shapes_of(G):
+    """the invocation shapes a graph contains (histogram keys)"""
+    B = by_id(G)
+    out = set()
+    for n in G:
+        if n['kind'] not in ('dec', 'bkm'):
+            continue
+        own = set(n['ri'] + n['rd']) if n['kind'] == 'dec' else set(n['params'])
+        for e in sub_exprs(n['logic'] if n['kind'] == 'dec' else n['body']):
+            if e[0] == 'invoke' and e[1] in B:
+                what = 'decision service' if B[e[1]]['kind'] == 'svc' else 'knowledge model'
+                ps, bound = set(fn_params(B, e[1])), set(p for p, _ in e[2])
+                if ps <= bound:
+                    out.add('graphs: boxed invocation of a %s, every parameter bound' % what)
+                else:
+                    out.add('graphs: boxed invocation of a %s, a parameter without binding' % what)
+                    if not bound:
+                        out.add('graphs: boxed invocation of a %s, no binding at all' % what)
+                    if n['kind'] == 'dec' and (ps - bound) & own:
+                        out.add('graphs: boxed invocation of a %s, the invoking decision requires an input / decision named like the unbound parameter' % what)
+                if bound - ps:
+                    out.add('graphs: boxed invocation with a binding that names no parameter')
+            elif e[0] == 'call' and e[1] in B and len(e[2]) != len(fn_params(B, e[1])):
+                out.add('graphs: FEEL call with %s arguments than parameters' % ('fewer' if len(e[2]) < len(fn_params(B, e[1])) else 'more'))
+            elif e[0] == 'calln':
+                out.add('graphs: FEEL call with named arguments, %s' % ('every parameter named' if set(e[3]) <= set(p for p, _ in e[2]) else 'a parameter not named'))
+    return out
 
 
 def order_of(G):
@@ -604,8 +829,10 @@ def run(ctx):
     ctx.build_harness()
     rng = ctx.rng
     graphs = witness_graphs()
-    for _ in range(ctx.pick(260, 2500)):
+    for _ in range(ctx.pick(230, 2300)):
         graphs.append(gen_graph(rng, rng.randint(4, ctx.pick(10, 14))))
+    for _ in range(ctx.pick(90, 800)):
+        graphs.append(gen_invocation_graph(rng, rng.randint(5, ctx.pick(7, 9)), ctx.pick(12, 14)))
     stats = {}
     res = run_graphs(ctx, graphs)
     judge(ctx, res, stats)
@@ -614,6 +841,8 @@ def run(ctx):
     sizes = {}
     for G in graphs:
         sizes[len(G)] = sizes.get(len(G), 0) + 1
+        for key in shapes_of(G):
+            stats[key] = stats.get(key, 0) + 1
         src = repr([n.get('logic') or n.get('body') for n in G])
         for key, hit in (('graphs: a knowledge model with a repeated formal parameter name', any(n['kind'] == 'bkm' and len(set(n['params'])) < len(n['params']) for n in G)),
                          ('graphs: string literal in a logic', "('str'," in src),
@@ -624,17 +853,26 @@ def run(ctx):
     return ctx.finish(
         rule='acyclic DRGs of 4..%d nodes generated node by node (each node requires earlier nodes): number-typed inputs; decisions with literal, boxed context (entries seeing earlier entries, '
              'optional result entry, nested boxed values), boxed invocation and relation logic; knowledge models with 1-3 parameters (18 %% of them with a repeated parameter name) invoked by f(x) and by '
-             'boxed invocation, requiring knowledge models and decision services; decision services with input / encapsulated / output decisions (one or two outputs) required as functions; literals: '
+             'boxed invocation, requiring knowledge models and decision services, 32 %% of them with a parameter named like an input data; decision services with input / encapsulated / output decisions '
+             '(one or two outputs) required as functions; every required function (knowledge model or service) is invoked by FEEL calls - one argument per parameter, missing trailing arguments (null), one argument too many, '
+             'NAMED arguments with every parameter named / a parameter not named (null) / a name that is no parameter - and by boxed invocations whose bindings are a subset of the parameters: all (40 %%), all but one '
+             '(preferably one the invoker has in its own context), none, a random subset, sometimes a binding that names no parameter; 60 %% of the decisions with knowledge requirements also require the inputs / decisions '
+             'their functions\' parameters are named after; %d further graphs (of at most %d nodes: denote costs 2^nodes) add to a generated graph one invoking decision per shape for one function (70 %% a service): '
+             'boxed invocation with all / all but one (each) / none of the parameters bound, FEEL call without the last argument, named call without one name, the invoker requiring 85 %% of the inputs / decisions named like '
+             'the parameters, bound values being other expressions / literals, a quarter of the invocations as a boxed context entry; literals: '
              'integers 0..5, -1..-3, numbers around 10^17 / 10^33 / 10^34 and literals of 35 and 38 digits, strings (6 texts, the empty one and a non-ASCII one among them); + and * over them and over '
              'names, 8 %% of the operators a + between string-valued operands; every invocable is invoked with: all relevant inputs (values 1..6, 13 %% numbers of 17..38 digits, 5 %% strings), '
              'the same plus entries named like nodes outside its requirement closure or fresh names (non-interference, judged on the implementation alone), a partial input, the empty input, and an '
              'input that names a required decision; plus hand-written witnesses (context entry leak, service required by a knowledge model, diamond through a service, string + string and its null mixes, '
-             'formal parameters (p1, p1) called positionally and by boxed invocation, a * a + 1 at a = 10^17, -3 * 0). numbers are compared by value at every size (no case is skipped). '
-             'non-trivial = non-null result' % ctx.pick(10, 14),
+             'formal parameters (p1, p1) called positionally and by boxed invocation, a * a + 1 at a = 10^17, -3 * 0, boxed invocation of a service leaving out an input data / an input decision the invoker requires itself, '
+             'the same for a knowledge model with a parameter named like an input). numbers are compared by value at every size (no case is skipped). '
+             'non-trivial = non-null result' % (ctx.pick(10, 14), ctx.pick(90, 800), ctx.pick(12, 14)),
         extra_cov={'exhaustive': False, 'graphs': len(graphs), 'graph_sizes': sizes, 'histogram': stats},
         assumptions=['logic is drawn from the modelled expression language (integer literals of any length, string literals, + *, names, calls, boxed context / invocation / relation); '
+                     'a FEEL call with named arguments is not a constructor of the Coq expression language: the check translates it into the positional call (every formal parameter named) or into null '
+                     '(a formal parameter not named), as eval_function_named does, and the model evaluates the translation; '
                      'a name the logic does not require is written in parentheses (unparenthesised, the lexer reads `zz1 + 3` with an unknown zz1 as the single name "zz1+3": C10)',
-                     'element and variable names are unique within a model (formal parameter names of a knowledge model may repeat); input data are number-typed (a string supplied for them is null); output variables and formal parameters are untyped',
+                     'element and variable names are unique within a model (formal parameter names of a knowledge model may repeat and may be the name of an input data); input data are number-typed (a string supplied for them is null); output variables and formal parameters are untyped',
                      'interpretive choice: an input entry named like a required decision or knowledge model replaces its value (FeelContext::overwrite; this is how a decision service hands its input decisions to the encapsulated decisions); '
                      'the input decisions of a service are parameters: their values are taken from the input context, null when absent',
                      'a logic may call the decision services of its knowledge requirement closure (callable_ok checks the annotation on every generated graph)'],
@@ -664,5 +902,5 @@ def replay(ctx, path):
 
 MANIFEST = dict(
     technique='Coq proof (the recursive closure wiring computes an independent denotational Spec written as a value-by-recursion over the acyclic graph with priority-list environments; fuel sufficiency with the answer at exhaustion as a parameter; non-interference; over an abstract expression evaluator, instantiated with the evaluator of the check) with model/code correspondence on generated DRGs',
-    text='Theorems (coq/Props/C04.v, 33, closed under the global context). INDEPENDENT SPEC (coq/C04/Denote.v): denote eval G id inp, a value by recursion over the acyclic requirement graph (fuel = number of nodes + 1; C04_denote_fuel_irrelevant), written without the closure body / run / zip / overwrite: a decision denotes the value of its logic in an environment given as a priority list read by lookup - supplied entries named like a required decision or knowledge function, then required decisions bound to what THEY denote, required services as function values, knowledge models and transitively their knowledge requirements (dynamic scoping), required inputs bound to the supplied number-typed value, nothing else (C04_denote_decision, C04_denote_scope); a decision service denotes the value(s) of its output decisions on {input data, input decisions: supplied values} (input decisions are parameters, never evaluated: decision_service.rs after 6a3e4f8, mirrored by the ImplModel). C04_impl_is_denotation: for EVERY acyclic graph (inputs, decisions, knowledge models requiring knowledge models and services, services with input/encapsulated/output decisions), every element, every input context and every fuel >= |order|, the ImplModel of the closures of decision.rs / business_knowledge_model.rs / decision_service.rs (phases, set_entry / zip / overwrite, evaluation order) equals denote, over ANY evaluator that uses its service call-back extensionally and reads its scope by look-up (teval does: C04_teval_ext, C04_teval_reads_by_lookup; instance C04_impl_is_denotation_teval). The theorem fails for the pinned variant: C04_orig_is_not_denotation (the witness of C04_knowledge_service_orig_refuted, denote = 20, orig = null). C04_denote_irrelevant_inputs / C04_irrelevant_inputs: entries outside the requirement closure have no influence. FUEL: run answers `out` and the tiny evaluator null when fuel is used up; with that answer as a parameter (run_d, tev_d) C04_run_fuel_sufficient (more fuel than nodes), C04_tev_fuel_sufficient (ranked scope: need e = depth + call level * body depth), C04_graph_fuel_sufficient and C04_fuel_sufficient_all (graph_fuel_ok + first-order inputs: ImplModel with ANY exhaustion answer of the closures = denotation with ANY exhaustion answer of the evaluator) show no exhaustion answer reaches a result; the check evaluates graph_fuel_auto for every generated graph (all certified). The older theorems C04_refines, C04_invoke_refines, C04_fuel_sufficient, C04_diamond_agree, C04_spec_fixpoint, C04_decision_scope / _sees, C04_service_outputs relate run to spec_step, which tabulates the SAME closure body: they say that recursion scheme, fuel and requesting path do not matter (also for the defective variant), not that the wiring is right. The tiny evaluator is tied to the FEEL evaluator model of C01 (C04_teval_is_feel_eval, coq/C04/LinkC01.v): on null, numbers, strings, names, + *, literal invocation of knowledge-model function values and boxed contexts with or without result entry it EQUALS C01 eval_spec and the scope-stack machine run_impl on the translated expression and environment, whenever the evaluation stays in that fragment within 60 levels (C04_teval_feel_corners: "a"+"b" = "ab", f(1,2) with parameters (x,x) = 2, a*a+1 at a = 10^17 = 1E+34, -3*0 = -0 in teval, in C01 and in the real code). Tied to the code by generated DMN documents (literal, boxed context, boxed invocation, relation logic; BKMs invoked literally and boxed, some with repeated parameter names; services as functions, one whose input decision requires and invokes it; string operands; numbers up to 38 digits, compared by value at every size) evaluated through evaluate_invocable and compared with denote teval (and impl_invoke teval); non-interference is also judged on the implementation alone.',
+    text='Theorems (coq/Props/C04.v, 33, closed under the global context). INDEPENDENT SPEC (coq/C04/Denote.v): denote eval G id inp, a value by recursion over the acyclic requirement graph (fuel = number of nodes + 1; C04_denote_fuel_irrelevant), written without the closure body / run / zip / overwrite: a decision denotes the value of its logic in an environment given as a priority list read by lookup - supplied entries named like a required decision or knowledge function, then required decisions bound to what THEY denote, required services as function values, knowledge models and transitively their knowledge requirements (dynamic scoping), required inputs bound to the supplied number-typed value, nothing else (C04_denote_decision, C04_denote_scope); a decision service denotes the value(s) of its output decisions on {input data, input decisions: supplied values} (input decisions are parameters, never evaluated: decision_service.rs after 6a3e4f8, mirrored by the ImplModel). C04_impl_is_denotation: for EVERY acyclic graph (inputs, decisions, knowledge models requiring knowledge models and services, services with input/encapsulated/output decisions), every element, every input context and every fuel >= |order|, the ImplModel of the closures of decision.rs / business_knowledge_model.rs / decision_service.rs (phases, set_entry / zip / overwrite, evaluation order) equals denote, over ANY evaluator that uses its service call-back extensionally and reads its scope by look-up (teval does: C04_teval_ext, C04_teval_reads_by_lookup; instance C04_impl_is_denotation_teval). The theorem fails for the pinned variant: C04_orig_is_not_denotation (the witness of C04_knowledge_service_orig_refuted, denote = 20, orig = null). C04_denote_irrelevant_inputs / C04_irrelevant_inputs: entries outside the requirement closure have no influence. FUEL: run answers `out` and the tiny evaluator null when fuel is used up; with that answer as a parameter (run_d, tev_d) C04_run_fuel_sufficient (more fuel than nodes), C04_tev_fuel_sufficient (ranked scope: need e = depth + call level * body depth), C04_graph_fuel_sufficient and C04_fuel_sufficient_all (graph_fuel_ok + first-order inputs: ImplModel with ANY exhaustion answer of the closures = denotation with ANY exhaustion answer of the evaluator) show no exhaustion answer reaches a result; the check evaluates graph_fuel_auto for every generated graph (all certified). The older theorems C04_refines, C04_invoke_refines, C04_fuel_sufficient, C04_diamond_agree, C04_spec_fixpoint, C04_decision_scope / _sees, C04_service_outputs relate run to spec_step, which tabulates the SAME closure body: they say that recursion scheme, fuel and requesting path do not matter (also for the defective variant), not that the wiring is right. The tiny evaluator is tied to the FEEL evaluator model of C01 (C04_teval_is_feel_eval, coq/C04/LinkC01.v): on null, numbers, strings, names, + *, literal invocation of knowledge-model function values and boxed contexts with or without result entry it EQUALS C01 eval_spec and the scope-stack machine run_impl on the translated expression and environment, whenever the evaluation stays in that fragment within 60 levels (C04_teval_feel_corners: "a"+"b" = "ab", f(1,2) with parameters (x,x) = 2, a*a+1 at a = 10^17 = 1E+34, -3*0 = -0 in teval, in C01 and in the real code). Tied to the code by generated DMN documents (literal, boxed context, boxed invocation, relation logic; BKMs invoked literally and boxed, some with repeated parameter names; services as functions, one whose input decision requires and invokes it; knowledge models and services invoked by boxed invocations with every subset of the parameters bound from decisions that have entries named like the unbound parameters, FEEL calls with missing trailing / named arguments; string operands; numbers up to 38 digits, compared by value at every size) evaluated through evaluate_invocable and compared with denote teval (and impl_invoke teval); non-interference is also judged on the implementation alone.',
     note='Trusted: Coq kernel + vm_compute, hand-written model of the wiring (correspondence-checked, not verified), the tiny evaluator standing for the FEEL evaluator on the generated expression fragment, harness. Interpretive choices listed in the evidence (input entries named like a required decision override it; service input decisions are parameters). Decision tables and boxed function definitions as logic are not generated (C03 / C01). The fuel bound does not cover knowledge models that call each other through the dynamic scope of a common caller (acyclic requirements, endless evaluation): not generated.')
